@@ -8,6 +8,7 @@ import (
 	"fmt"
 	"io"
 	"net"
+	"sync"
 	"time"
 
 	"github.com/vapourismo/knx-go/knx/util"
@@ -24,8 +25,10 @@ type Socket interface {
 
 // TunnelSocket is a UDP socket for KNXnet/IP packet exchange.
 type TunnelSocket struct {
-	conn    net.Conn
-	inbound <-chan Service
+	conn      net.Conn
+	inbound   <-chan Service
+	done      chan struct{}
+	closeOnce sync.Once
 }
 
 // DialTunnelUDP creates a new Socket which can used to exchange KNXnet/IP packets with a single
@@ -48,9 +51,10 @@ func DialTunnelUDP(address string) (*TunnelSocket, error) {
 	conn.SetDeadline(time.Time{})
 
 	inbound := make(chan Service)
-	go serveUDPSocket(conn, addr, inbound)
+	done := make(chan struct{})
+	go serveUDPSocket(conn, addr, inbound, done)
 
-	return &TunnelSocket{conn, inbound}, nil
+	return &TunnelSocket{conn: conn, inbound: inbound, done: done}, nil
 }
 
 // DialTunnelTCP creates a new Socket which can used to exchange KNXnet/IP packets with a single
@@ -73,9 +77,10 @@ func DialTunnelTCP(address string) (*TunnelSocket, error) {
 	conn.SetDeadline(time.Time{})
 
 	inbound := make(chan Service)
-	go serveTCPSocket(conn, addr, inbound)
+	done := make(chan struct{})
+	go serveTCPSocket(conn, addr, inbound, done)
 
-	return &TunnelSocket{conn, inbound}, nil
+	return &TunnelSocket{conn: conn, inbound: inbound, done: done}, nil
 }
 
 // Send transmits a KNXnet/IP packet.
@@ -95,6 +100,8 @@ func (sock *TunnelSocket) Inbound() <-chan Service {
 
 // Close shuts the socket down. This will indirectly terminate the associated workers.
 func (sock *TunnelSocket) Close() error {
+	// Release a worker that is waiting for somebody to receive from the inbound channel.
+	sock.closeOnce.Do(func() { close(sock.done) })
 	return sock.conn.Close()
 }
 
@@ -105,9 +112,11 @@ func (sock *TunnelSocket) LocalAddr() net.Addr {
 
 // RouterSocket is a UDP socket for KNXnet/IP packet exchange.
 type RouterSocket struct {
-	conn    *net.UDPConn
-	addr    *net.UDPAddr
-	inbound <-chan Service
+	conn      *net.UDPConn
+	addr      *net.UDPAddr
+	inbound   <-chan Service
+	done      chan struct{}
+	closeOnce sync.Once
 }
 
 // ListenRouter creates a new Socket which can be used to exchange KNXnet/IP packets with
@@ -149,9 +158,10 @@ func ListenRouterOnInterface(ifi *net.Interface, multicastAddress string, multic
 	conn.SetDeadline(time.Time{})
 
 	inbound := make(chan Service)
-	go serveUDPSocket(conn, nil, inbound)
+	done := make(chan struct{})
+	go serveUDPSocket(conn, nil, inbound, done)
 
-	return &RouterSocket{conn, addr, inbound}, nil
+	return &RouterSocket{conn: conn, addr: addr, inbound: inbound, done: done}, nil
 }
 
 // Addr returns the multicast destination address.
@@ -176,6 +186,8 @@ func (sock *RouterSocket) Inbound() <-chan Service {
 
 // Close shuts the socket down. This will indirectly terminate the associated workers.
 func (sock *RouterSocket) Close() error {
+	// Release a worker that is waiting for somebody to receive from the inbound channel.
+	sock.closeOnce.Do(func() { close(sock.done) })
 	return sock.conn.Close()
 }
 
@@ -185,7 +197,7 @@ func (sock *RouterSocket) LocalAddr() net.Addr {
 }
 
 // serveUDPSocket is the receiver worker for a UDP socket.
-func serveUDPSocket(conn *net.UDPConn, addr *net.UDPAddr, inbound chan<- Service) {
+func serveUDPSocket(conn *net.UDPConn, addr *net.UDPAddr, inbound chan<- Service, done <-chan struct{}) {
 	util.Log(conn, "Started worker")
 	defer util.Log(conn, "Worker exited")
 
@@ -220,12 +232,16 @@ func serveUDPSocket(conn *net.UDPConn, addr *net.UDPAddr, inbound chan<- Service
 			continue
 		}
 
-		inbound <- payload
+		select {
+		case inbound <- payload:
+		case <-done:
+			return
+		}
 	}
 }
 
 // serveTCPSocket is the receiver worker for a TCP socket.
-func serveTCPSocket(conn *net.TCPConn, addr *net.TCPAddr, inbound chan<- Service) {
+func serveTCPSocket(conn *net.TCPConn, addr *net.TCPAddr, inbound chan<- Service, done <-chan struct{}) {
 	util.Log(conn, "Started worker")
 	defer util.Log(conn, "Worker exited")
 
@@ -276,6 +292,10 @@ func serveTCPSocket(conn *net.TCPConn, addr *net.TCPAddr, inbound chan<- Service
 			continue
 		}
 
-		inbound <- payload
+		select {
+		case inbound <- payload:
+		case <-done:
+			return
+		}
 	}
 }
